@@ -579,3 +579,255 @@ func ruleR084(c *Ctx) {
 		c.OK("value#lists-in-messages", token.NoPos, "none of the %d calls of fmt/log functions in evaluation code is handed a *List", calls)
 	}
 }
+
+// ---------------------------------------------------------------------------
+// R08.5 the error of a read-ahead element is not reported.
+//
+// A loop over a producer that can leave the loop while it *drops* the element
+// it has just pulled (a path from the start of the body to a return/break on
+// which the element is neither handed to the consumer nor stored, under an
+// exit condition that does not depend on the element: "the quota is used up")
+// has pulled a read-ahead element. C08 allows the pull, not the report of an
+// error only that element raises: the exit test has to come first, i.e. it
+// dominates every forwarding of the element's error (yield(_, err), return
+// err). iterator.FirstN is the model: `if i == n { return }` is the first
+// statement of the body.
+
+func ruleR085(c *Ctx) {
+	pkgs := []*packages.Package{}
+	if p := c.Pkg("value"); p != nil {
+		pkgs = append(pkgs, p)
+	}
+	if c.Iter != nil {
+		pkgs = append(pkgs, c.Iter)
+	}
+	nLoops, nExits := 0, 0
+	forEachFuncBody(pkgs, func(pkg *packages.Package, fn ast.Node, body *ast.BlockStmt) {
+		info := pkg.TypesInfo
+		inspectNoLit(body, func(x ast.Node) bool {
+			rs, ok := x.(*ast.RangeStmt)
+			if !ok || rs.Key == nil || rs.Value == nil {
+				return true
+			}
+			if _, isFunc := info.TypeOf(rs.X).Underlying().(*types.Signature); !isFunc {
+				return true
+			}
+			vID, ok1 := rs.Key.(*ast.Ident)
+			eID, ok2 := rs.Value.(*ast.Ident)
+			if !ok1 || !ok2 || eID.Name == "_" || !isErrorType(info.TypeOf(eID)) {
+				return true
+			}
+			vObj, eObj := info.ObjectOf(vID), info.ObjectOf(eID)
+			nLoops++
+			g := c.CFG(fn)
+			if g == nil {
+				return true
+			}
+			// variables that carry (parts of) the element
+			elem := map[types.Object]bool{eObj: true}
+			if vObj != nil && vID.Name != "_" {
+				elem[vObj] = true
+			}
+			mentions := func(n ast.Node, set map[types.Object]bool) bool {
+				return containsNodeDeep(n, func(y ast.Node) bool {
+					id, ok := y.(*ast.Ident)
+					return ok && set[info.ObjectOf(id)]
+				})
+			}
+			for changed := true; changed; {
+				changed = false
+				ast.Inspect(rs.Body, func(y ast.Node) bool {
+					as, ok := y.(*ast.AssignStmt)
+					if !ok {
+						return true
+					}
+					dep := false
+					for _, r := range as.Rhs {
+						if mentions(r, elem) {
+							dep = true
+						}
+					}
+					if !dep {
+						return true
+					}
+					for _, l := range as.Lhs {
+						if id, ok := l.(*ast.Ident); ok && id.Name != "_" {
+							if o := info.ObjectOf(id); o != nil && !elem[o] {
+								elem[o] = true
+								changed = true
+							}
+						}
+					}
+					return true
+				})
+			}
+			// the value part (not the error): handing it on or storing it is a use of the element
+			valueVars := map[types.Object]bool{}
+			for o := range elem {
+				if o != eObj && !isErrorType(o.Type()) {
+					valueVars[o] = true
+				}
+			}
+			bodyBlk, _, _ := g.RangeBlocks(rs)
+			if bodyBlk == nil {
+				return true
+			}
+			isCall := func(n ast.Node) bool {
+				return containsNode(n, func(y ast.Node) bool {
+					_, ok := y.(*ast.CallExpr)
+					return ok
+				})
+			}
+			// (b) latching: the element's error is stored in a variable that outlives the loop and the loop goes on
+			// pulling: the stored error is reported later no matter what the consumers decided in between
+			_, loopBlk, _ := g.RangeBlocks(rs)
+			lat := 0
+			ast.Inspect(rs.Body, func(y ast.Node) bool {
+				if _, isLit := y.(*ast.FuncLit); isLit {
+					return false
+				}
+				as, ok := y.(*ast.AssignStmt)
+				if !ok || as.Tok != token.ASSIGN || len(as.Lhs) != len(as.Rhs) {
+					return true
+				}
+				for i, r := range as.Rhs {
+					rid, ok := ast.Unparen(r).(*ast.Ident)
+					if !ok || info.ObjectOf(rid) != eObj {
+						continue
+					}
+					lid, ok := ast.Unparen(as.Lhs[i]).(*ast.Ident)
+					if !ok {
+						continue
+					}
+					lo := info.ObjectOf(lid)
+					if lo == nil || (lo.Pos() >= rs.Body.Pos() && lo.Pos() < rs.Body.End()) {
+						continue // a variable of the loop body
+					}
+					lat++
+					nExits++
+					key := fmt.Sprintf("%s#latched-error[%d]:%s", c.FuncName(fn)+litSuffix(c, fn), lat, lid.Name)
+					blk, _, ok := g.Pos(as)
+					again := false
+					if ok && loopBlk != nil {
+						if blk == loopBlk {
+							again = true
+						} else {
+							// from the statement after the store: is the loop header reached again?
+							again = g.reachesBlock(as, loopBlk)
+						}
+					}
+					if again {
+						c.Violation(key, as.Pos(), "the error of the current element is stored in %s, which outlives the loop, and the loop goes on pulling elements: the stored error is reported after the loop although the consumers may have decided their result on earlier elements (or handled the error themselves); an error has to be forwarded to the consumer on the spot or end the iteration", lid.Name)
+					} else {
+						c.OK(key, as.Pos(), "the error is stored in %s and the loop is left on every path", lid.Name)
+					}
+				}
+				return true
+			})
+			// element independent exits: if <cond without element> { return | break }
+			ord := 0
+			ast.Inspect(rs.Body, func(y ast.Node) bool {
+				if _, isLit := y.(*ast.FuncLit); isLit {
+					return false
+				}
+				if inner, isLoop := y.(*ast.RangeStmt); isLoop && inner != rs {
+					return false
+				}
+				if _, isLoop := y.(*ast.ForStmt); isLoop {
+					return false
+				}
+				ifs, ok := y.(*ast.IfStmt)
+				if !ok || ifs.Init != nil || mentions(ifs.Cond, elem) || isCall(ifs.Cond) {
+					return true
+				}
+				if len(ifs.Body.List) != 1 {
+					return true
+				}
+				var exit ast.Stmt
+				switch t := ifs.Body.List[0].(type) {
+				case *ast.ReturnStmt:
+					if !isCall(t) && !mentions(t, elem) {
+						exit = t
+					}
+				case *ast.BranchStmt:
+					if t.Tok == token.BREAK && t.Label == nil {
+						exit = t
+					}
+				}
+				if exit == nil {
+					return true
+				}
+				// is the exit reached from the start of the body without a use of the element's value?
+				uses := func(n ast.Node) bool {
+					if n == ast.Node(ifs.Cond) {
+						return false
+					}
+					if mentions(n, valueVars) {
+						return true
+					}
+					// any call that receives the error hands the element on as well
+					return containsNode(n, func(y ast.Node) bool {
+						call, ok := y.(*ast.CallExpr)
+						if !ok {
+							return false
+						}
+						for _, a := range call.Args {
+							if mentions(a, elem) {
+								return true
+							}
+						}
+						return false
+					})
+				}
+				found, _ := g.PathFromBlock(bodyBlk, func(n ast.Node) bool { return n == ast.Node(exit) }, uses, nil)
+				if !found {
+					return true // the element was delivered before: an eager stop, no read-ahead
+				}
+				nExits++
+				ord++
+				key := fmt.Sprintf("%s#read-ahead-exit[%d]", c.FuncName(fn)+litSuffix(c, fn), ord)
+				// every forwarding of the element's error has to be dominated by the exit test
+				var bad ast.Node
+				ast.Inspect(rs.Body, func(z ast.Node) bool {
+					if bad != nil {
+						return false
+					}
+					if _, isLit := z.(*ast.FuncLit); isLit {
+						return false
+					}
+					fwd := false
+					switch t := z.(type) {
+					case *ast.ReturnStmt:
+						for _, r := range t.Results {
+							if mentions(r, map[types.Object]bool{eObj: true}) {
+								fwd = true
+							}
+						}
+					case *ast.CallExpr:
+						for _, a := range t.Args {
+							if id, ok := ast.Unparen(a).(*ast.Ident); ok && info.ObjectOf(id) == eObj {
+								fwd = true
+							}
+						}
+					}
+					if fwd && !g.Dominates(ifs.Cond, z) {
+						bad = z
+					}
+					return true
+				})
+				if bad != nil {
+					c.Violation(key, bad.Pos(), "the loop leaves on %s while it drops the element it has just pulled (a read-ahead element), but the error of that element is forwarded at line %d before this test: an error that only an element behind the decisive one raises is reported (the exit test has to be the first thing done with a pulled element, as in iterator.FirstN)", nodeStr(c.Fset, ifs.Cond), c.Fset.Position(bad.Pos()).Line)
+				} else {
+					c.OK(key, ifs.Pos(), "the exit test %s precedes every forwarding of the pulled element's error", nodeStr(c.Fset, ifs.Cond))
+				}
+				return true
+			})
+			return true
+		})
+	})
+	if nLoops < 20 {
+		c.Undecided("value#producer-loops", token.NoPos, "only %d loops over producers found", nLoops)
+		return
+	}
+	c.OK("value#producer-loops", token.NoPos, "%d loops over producers examined, %d of them can drop a pulled element on an element independent exit", nLoops, nExits)
+}
